@@ -160,7 +160,7 @@ class DPMechanism(DPMachine, abc.ABC):
         if not isinstance(epsilon, Real) or not isinstance(delta, Real):
             raise TypeError("Epsilon and delta must be numeric")
 
-        if epsilon < 0:
+        if not epsilon >= 0:
             raise ValueError("Epsilon must be non-negative")
 
         if not 0 <= delta <= 1:
